@@ -10,11 +10,16 @@ themselves (hyper/reqwest, libcurl, ureq: HTTP/1.1 framing, sockets, timing) are
 `lib`/`wire` are validated only by the loopback runs of `harness/src/bin/adapters.rs`.
 The theorems `glue_*` below do NOT depend on `lib`: they hold for whatever the engine returns.
 
-`Version.fixed` = tree with fixes/F4-ureq-status.patch; `Version.pinned` = pinned tree, on which
-the full reply clause is false for ureq (finding F4): see `C09_transparent_partial` and
-`C09_pinned_not_transparent`.  The full fault clause `FaultsSurface` is false for ureq with either
-version (finding F6, a ureq 2.x engine behaviour): see `C09_faults_partial`,
-`C09_ureq_not_faults_surface`.
+`Version.fixed` = the current tree (fix commits F4 and F7); `Version.pinned` = pinned tree, on which the reply clause is
+false for ureq in two ways: status ≥ 400 came back as an error (F4, `C09_pinned_ureq_ge400`) and a Content-Type with a
+byte outside visible ASCII was silently DROPPED (F7, `C09_pinned_ureq_hidden_ct_dropped`).
+On the current tree the reply clause holds at full strength for both reqwest adapters (`C09_transparent_reqwest`) and
+for curl / ureq on every reply whose Content-Type their engine can show (`C09_transparent`: valid UTF-8 for libcurl,
+visible ASCII for ureq 2.x); on the remaining replies they return an ERROR VALUE, never an altered success
+(`C09_unreadable_is_error`), so the full clause is false for them (`C09_ureq_not_transparent`,
+`C09_curl_not_transparent`: residual of F7, an engine API limit).
+The full fault clause `FaultsSurface` is false for ureq with either version (finding F6, a ureq 2.x engine behaviour):
+see `C09_faults_partial`, `C09_ureq_not_faults_surface`.
 -/
 namespace C09
 open Adapter
@@ -22,6 +27,9 @@ open Adapter
 /-- The full-strength reply clause for glue version `v` and adapter `a`. -/
 def Transparent (v : Version) (a : Id) : Prop :=
   ∀ r : WireReply, WellFormed r → adapter v a (.inl r) = .ok (respOf r)
+
+/-- a head as shown by an engine that could read the Content-Type -/
+def Head.plain (h : Head) : Prop := h.ctHidden = false ∧ h.ctUnreadable = false
 
 /-! ### Glue alone (independent of the assumed engine contracts) -/
 
@@ -31,60 +39,155 @@ theorem rebuild_ok (h : Head) (b : Bytes) (e : Err) (hs : statusOk h.status = tr
 
 /-- Whatever an engine reports as a received response is handed on unchanged by every adapter. -/
 theorem glue_ok (v : Version) (a : Id) (h : Head) (b : Bytes)
-    (hs : statusOk h.status = true) (hc : ctOk h.contentType = true) :
+    (hs : statusOk h.status = true) (hc : ctOk h.contentType = true) (hp : Head.plain h) :
     glue v a (.ok h (some b)) = .ok { status := h.status, contentType := h.contentType, body := b } := by
-  cases a <;> simp [glue, copyAll, rebuild_ok, hs, hc]
+  obtain ⟨h1, h2⟩ := hp
+  cases a <;> simp [glue, copyAll, ureqRebuild, rebuild_ok, hs, hc, h1, h2]
 
 /-- After the F4 patch, ureq's `Error::Status(code, response)` is handed on as that response. -/
 theorem glue_fixed_statusErr (h : Head) (b : Bytes)
-    (hs : statusOk h.status = true) (hc : ctOk h.contentType = true) :
+    (hs : statusOk h.status = true) (hc : ctOk h.contentType = true) (hp : Head.plain h) :
     glue .fixed .ureq (.statusErr h (some b)) = .ok { status := h.status, contentType := h.contentType, body := b } := by
-  simp [glue, rebuild_ok, hs, hc]
+  simp [glue, ureqRebuild, rebuild_ok, hs, hc, hp.1]
 
-/-- The glue never alters, shortens or invents: a success carries exactly the status, Content-Type
-and body bytes the engine reported, for every adapter and both versions. -/
-theorem glue_success_exact (v : Version) (a : Id) (l : LibResult) (resp : Response)
-    (h : glue v a l = .ok resp) :
-    l = .ok ⟨resp.status, resp.contentType⟩ (some resp.body) ∨
-    (v = .fixed ∧ a = .ureq ∧ l = .statusErr ⟨resp.status, resp.contentType⟩ (some resp.body)) := by
-  cases a <;> cases v <;> cases l <;>
-    simp_all [glue, copyAll, rebuild] <;>
+/-- The CURRENT glue never alters, shortens or invents: a success carries exactly the status, Content-Type and body
+bytes the engine reported, for every adapter. -/
+theorem glue_success_exact (a : Id) (l : LibResult) (resp : Response)
+    (h : glue .fixed a l = .ok resp) :
+    ∃ hd, (l = .ok hd (some resp.body) ∨ (a = .ureq ∧ l = .statusErr hd (some resp.body))) ∧
+      hd.status = resp.status ∧ hd.contentType = resp.contentType ∧
+      (a = .ureq → hd.ctHidden = false) ∧ (a = .curl → hd.ctUnreadable = false) := by
+  cases a <;> cases l <;>
+    simp_all [glue, copyAll, rebuild, ureqRebuild] <;>
     (repeat' split at h) <;> simp_all <;>
-    (first | (cases h; rfl) | (obtain ⟨rfl⟩ := h; simp))
+    (first | (cases h; simp_all) | (obtain ⟨rfl⟩ := h; simp_all))
+
+/-- the pinned ureq glue passed a hidden Content-Type on as ABSENT (F7, glue level) -/
+theorem glue_pinned_hidden_dropped (h : Head) (b : Bytes) (hs : statusOk h.status = true) (hh : h.ctHidden = true) :
+    glue .pinned .ureq (.ok h (some b)) = .ok { status := h.status, contentType := none, body := b } := by
+  simp [glue, ureqRebuild, hh, rebuild, hs, ctOk]
 
 /-- An engine error, or a failed body read, is never turned into a success. -/
 theorem glue_error (v : Version) (a : Id) (h : Head) :
     (∃ e, glue v a .transportErr = .error e) ∧ (∃ e, glue v a (.ok h none) = .error e) ∧
     (∃ e, glue v a (.statusErr h none) = .error e) := by
-  cases a <;> cases v <;> simp [glue, copyAll, rebuild] <;> (repeat' split) <;> simp
+  cases a <;> cases v <;> simp [glue, copyAll, rebuild, ureqRebuild] <;> (repeat' split) <;> simp
+
+/-- the current glue turns a Content-Type the engine cannot show into an error value, whatever the rest -/
+theorem glue_fixed_unreadable (h : Head) (b : Option Bytes) :
+    (h.ctHidden = true → (∃ e, glue .fixed .ureq (.ok h b) = .error e) ∧ ∃ e, glue .fixed .ureq (.statusErr h b) = .error e) ∧
+    (h.ctUnreadable = true → ∃ e, glue .fixed .curl (.ok h b) = .error e) := by
+  refine ⟨fun hh => ?_, fun hu => ?_⟩
+  · simp only [glue, ureqRebuild, hh, ↓reduceIte]
+    constructor <;> (split <;> exact ⟨_, rfl⟩)
+  · simp [glue, hu]
 
 /-! ### Composition with the assumed engine contracts -/
 
-/-- C09 reply clause, full strength, on the tree with the F4 repair: every adapter returns the
-server's status, Content-Type and body bytes unchanged — for every status (2xx, 3xx, 4xx, 5xx
-alike) and every body. -/
-theorem C09_transparent (a : Id) : Transparent .fixed a := by
-  intro r wf
-  obtain ⟨hs, hc⟩ := wf
-  cases a <;> simp only [adapter, lib, headOf, respOf]
-  · exact glue_ok _ _ _ _ hs hc
-  · exact glue_ok _ _ _ _ hs hc
-  · exact glue_ok _ _ _ _ hs hc
-  · split
-    · exact glue_fixed_statusErr _ _ hs hc
-    · exact glue_ok _ _ _ _ hs hc
+theorem headFor_readable (a : Id) (r : WireReply) (hr : EngineReadable a r = true) : headFor a (headOf r) = headOf r := by
+  unfold headFor headOf EngineReadable at *
+  cases a <;> cases hc : r.contentType <;> simp_all
 
-/-- The same on the PINNED tree, excluding exactly (ureq, status ≥ 400). -/
-theorem C09_transparent_partial (a : Id) (r : WireReply) (wf : WellFormed r)
+theorem headOf_plain (r : WireReply) : Head.plain (headOf r) := ⟨rfl, rfl⟩
+
+/-- C09 reply clause on the current tree: every adapter returns the server's status, Content-Type and body bytes
+unchanged — for every status (2xx, 3xx, 4xx, 5xx alike) and every body — on every reply whose Content-Type its engine
+can show (all replies for reqwest). -/
+theorem C09_transparent (a : Id) (r : WireReply) (wf : WellFormed r) (hr : EngineReadable a r = true) :
+    adapter .fixed a (.inl r) = .ok (respOf r) := by
+  obtain ⟨hs, hc⟩ := wf
+  have hf := headFor_readable a r hr
+  cases a <;> simp only [adapter, lib, hf, respOf]
+  · exact glue_ok _ _ _ _ hs hc (headOf_plain r)
+  · exact glue_ok _ _ _ _ hs hc (headOf_plain r)
+  · exact glue_ok _ _ _ _ hs hc (headOf_plain r)
+  · split
+    · exact glue_fixed_statusErr _ _ hs hc (headOf_plain r)
+    · exact glue_ok _ _ _ _ hs hc (headOf_plain r)
+
+/-- full strength for the two reqwest adapters -/
+theorem C09_transparent_reqwest : Transparent .fixed .reqwestAsync ∧ Transparent .fixed .reqwestBlocking :=
+  ⟨fun r wf => C09_transparent _ r wf rfl, fun r wf => C09_transparent _ r wf rfl⟩
+
+/-- **never an altered success**: a complete reply whose Content-Type the engine cannot show comes back as an ERROR
+value through the current curl and ureq adapters (before F7's repair ureq returned it as a success WITHOUT its
+Content-Type, `C09_pinned_ureq_hidden_ct_dropped`) -/
+theorem C09_unreadable_is_error (a : Id) (r : WireReply) (hr : EngineReadable a r = false) :
+    ∃ e, adapter .fixed a (.inl r) = .error e := by
+  cases a <;> simp only [EngineReadable] at hr
+  · cases hc : r.contentType <;> simp_all
+  · cases hc : r.contentType <;> simp_all
+  · cases hc : r.contentType with
+    | none => simp_all
+    | some v =>
+      rw [hc] at hr
+      have : headFor .curl (headOf r) = { headOf r with contentType := none, ctUnreadable := true } := by
+        simp [headFor, headOf, hc, hr]
+      simp only [adapter, lib, this]
+      exact (glue_fixed_unreadable _ _).2 rfl
+  · cases hc : r.contentType with
+    | none => simp_all
+    | some v =>
+      rw [hc] at hr
+      have : headFor .ureq (headOf r) = { headOf r with contentType := none, ctHidden := true } := by
+        simp [headFor, headOf, hc, hr]
+      simp only [adapter, lib, this]
+      split
+      · exact ((glue_fixed_unreadable _ _).1 rfl).2
+      · exact ((glue_fixed_unreadable _ _).1 rfl).1
+
+/-- `200` + `text/html; t=café` (é as the Latin-1 byte 0xE9) + a token document: the F7 witness -/
+def f7Witness : WireReply :=
+  { status := 200, contentType := some (Form.lit "text/html; t=caf" ++ [0xE9]),
+    body := Form.lit "{\"access_token\":\"at\",\"token_type\":\"bearer\"}" }
+
+example : WellFormed f7Witness := by decide
+example : EngineReadable .ureq f7Witness = false ∧ EngineReadable .curl f7Witness = false := by decide +kernel
+/-- pinned tree: the reply came back as a success WITHOUT its Content-Type (so the library skipped the media-type check) -/
+example : adapter .pinned .ureq (.inl f7Witness) = .ok { respOf f7Witness with contentType := none } := by decide
+example : adapter .fixed .ureq (.inl f7Witness) = .error .other := by decide
+example : adapter .fixed .curl (.inl f7Witness) = .error .lib := by decide +kernel
+example : adapter .fixed .reqwestBlocking (.inl f7Witness) = .ok (respOf f7Witness) := by decide
+
+/-- F7, general form (pinned tree): through the ureq adapter a 1xx–3xx reply whose Content-Type has a byte outside
+visible ASCII came back as a success with NO Content-Type -/
+theorem C09_pinned_ureq_hidden_ct_dropped (r : WireReply) (hs : statusOk r.status = true) (h4 : ¬ 400 ≤ r.status)
+    (hr : EngineReadable .ureq r = false) :
+    adapter .pinned .ureq (.inl r) = .ok { respOf r with contentType := none } := by
+  simp only [EngineReadable] at hr
+  cases hc : r.contentType with
+  | none => simp_all
+  | some v =>
+    rw [hc] at hr
+    have : headFor .ureq (headOf r) = { headOf r with contentType := none, ctHidden := true } := by
+      simp [headFor, headOf, hc, hr]
+    simp only [adapter, lib, this, h4, ↓reduceIte, respOf]
+    exact glue_pinned_hidden_dropped _ _ hs rfl
+
+/-- The full statement is FALSE for ureq and for curl on the current tree as well (the reply is an error value instead
+of the unchanged response): residual of F7, recorded as a known finding. -/
+theorem C09_ureq_not_transparent : ¬ Transparent .fixed .ureq := by
+  intro h
+  have := h f7Witness (by decide)
+  revert this; decide
+
+theorem C09_curl_not_transparent : ¬ Transparent .fixed .curl := by
+  intro h
+  have := h f7Witness (by decide)
+  revert this; decide +kernel
+
+/-- The same on the PINNED tree, excluding (ureq, status ≥ 400) and replies whose Content-Type the engine cannot show. -/
+theorem C09_transparent_partial (a : Id) (r : WireReply) (wf : WellFormed r) (hr : EngineReadable a r = true)
     (hx : ¬ (a = .ureq ∧ 400 ≤ r.status)) : adapter .pinned a (.inl r) = .ok (respOf r) := by
   obtain ⟨hs, hc⟩ := wf
-  cases a <;> simp only [adapter, lib, headOf, respOf]
-  · exact glue_ok _ _ _ _ hs hc
-  · exact glue_ok _ _ _ _ hs hc
-  · exact glue_ok _ _ _ _ hs hc
+  have hf := headFor_readable a r hr
+  cases a <;> simp only [adapter, lib, hf, respOf]
+  · exact glue_ok _ _ _ _ hs hc (headOf_plain r)
+  · exact glue_ok _ _ _ _ hs hc (headOf_plain r)
+  · exact glue_ok _ _ _ _ hs hc (headOf_plain r)
   · have : ¬ 400 ≤ r.status := fun h => hx ⟨rfl, h⟩
     simp only [this, ↓reduceIte]
-    exact glue_ok _ _ _ _ hs hc
+    exact glue_ok _ _ _ _ hs hc (headOf_plain r)
 
 /-- On the pinned tree the excluded region is ALL error: every ureq reply with status ≥ 400 is
 returned as `HttpClientError::Reqwest(..)`, whatever its body (finding F4, general form). -/
@@ -110,14 +213,15 @@ theorem C09_pinned_not_transparent : ¬ Transparent .pinned .ureq := by
 /-- Same classification as through an in-memory client, for ANY classification function
 (in particular C05's `endpoint_response`): `400 invalid_grant`, `400 authorization_pending`, …
 are seen identically through every adapter. -/
-theorem C09_same_class {κ : Type} (classify : Outcome → κ) (a : Id) (r : WireReply) (wf : WellFormed r) :
+theorem C09_same_class {κ : Type} (classify : Outcome → κ) (a : Id) (r : WireReply) (wf : WellFormed r)
+    (hr : EngineReadable a r = true) :
     classify (adapter .fixed a (.inl r)) = classify (inMemory r) := by
-  rw [C09_transparent a r wf]; rfl
+  rw [C09_transparent a r wf hr]; rfl
 
 theorem C09_same_class_partial {κ : Type} (classify : Outcome → κ) (a : Id) (r : WireReply) (wf : WellFormed r)
-    (hx : ¬ (a = .ureq ∧ 400 ≤ r.status)) :
+    (hr : EngineReadable a r = true) (hx : ¬ (a = .ureq ∧ 400 ≤ r.status)) :
     classify (adapter .pinned a (.inl r)) = classify (inMemory r) := by
-  rw [C09_transparent_partial a r wf hx]; rfl
+  rw [C09_transparent_partial a r wf hr hx]; rfl
 
 /-- The full-strength fault clause for glue version `v` and adapter `a`: every fault surfaces as an
 error value, never a success (in particular never a silently shortened one). -/
@@ -152,7 +256,7 @@ theorem C09_faults_partial (v : Version) (a : Id) (f : Fault) (hx : ¬ (a = .ure
     ∃ e, adapter v a (.inr f) = .error e := by
   unfold adapter
   rcases lib_fault a f hx with h | ⟨h, h1 | h1⟩
-  · rw [h]; exact (glue_error v a ⟨0, none⟩).1
+  · rw [h]; exact (glue_error v a { status := 0, contentType := none }).1
   · rw [h1]; exact (glue_error v a h).2.1
   · rw [h1]; exact (glue_error v a h).2.2
 
@@ -164,27 +268,27 @@ theorem C09_faults (v : Version) (a : Id) (ha : a ≠ .ureq) : FaultsSurface v a
 back as a SUCCESS carrying only the bytes received so far (both glue versions: the glue cannot
 tell, the engine reports a normal end of body). -/
 theorem C09_ureq_truncated_chunked_shortened (v : Version) (h : Head) (rec : Bytes)
-    (hs : statusOk h.status = true) (hc : ctOk h.contentType = true) (h4 : ¬ 400 ≤ h.status) :
+    (hs : statusOk h.status = true) (hc : ctOk h.contentType = true) (hp : Head.plain h) (h4 : ¬ 400 ≤ h.status) :
     adapter v .ureq (.inr (.truncatedChunked h rec)) = .ok ⟨h.status, h.contentType, rec⟩ := by
   simp only [adapter, lib, h4, ↓reduceIte]
-  exact glue_ok v .ureq h rec hs hc
+  exact glue_ok v .ureq h rec hs hc hp
 
 /-- the F6 witness: `{"access_token":"at-12345","tok` — 31 of the body's bytes, then the connection closes -/
 def f6Witness : Fault :=
-  .truncatedChunked ⟨200, some (Form.lit "application/json")⟩ (Form.lit "{\"access_token\":\"at-12345\",\"tok")
+  .truncatedChunked { status := 200, contentType := some (Form.lit "application/json") } (Form.lit "{\"access_token\":\"at-12345\",\"tok")
 
 /-- The full fault clause is FALSE for ureq (with either glue version). -/
 theorem C09_ureq_not_faults_surface (v : Version) : ¬ FaultsSurface v .ureq := by
   intro h
   obtain ⟨e, he⟩ := h f6Witness
-  rw [f6Witness, C09_ureq_truncated_chunked_shortened v _ _ (by decide) (by decide) (by decide)] at he
+  rw [f6Witness, C09_ureq_truncated_chunked_shortened v _ _ (by decide) (by decide) ⟨rfl, rfl⟩ (by decide)] at he
   cases he
 
-/-- No success is ever shorter than (or otherwise different from) what the server sent: if an
-adapter returns `Ok`, the input was a complete reply and the result is exactly that reply —
-again excluding (ureq, chunked reply cut inside a chunk). -/
-theorem C09_success_exact_partial (v : Version) (a : Id) (x : WireReply ⊕ Fault) (resp : Response)
-    (h : adapter v a x = .ok resp) :
+/-- No success is ever shorter than (or otherwise different from) what the server sent: if a CURRENT adapter returns
+`Ok`, the input was a complete reply and the result is exactly that reply — again excluding (ureq, chunked reply cut
+inside a chunk). -/
+theorem C09_success_exact_partial (a : Id) (x : WireReply ⊕ Fault) (resp : Response)
+    (h : adapter .fixed a x = .ok resp) :
     (∃ r, x = .inl r ∧ resp = respOf r) ∨ (a = .ureq ∧ ∃ hd rec, x = .inr (.truncatedChunked hd rec)) := by
   cases x with
   | inr f =>
@@ -192,13 +296,35 @@ theorem C09_success_exact_partial (v : Version) (a : Id) (x : WireReply ⊕ Faul
     · right
       refine ⟨hx.1, ?_⟩
       cases f <;> simp_all [Fault.isTruncatedChunked]
-    · obtain ⟨e, he⟩ := C09_faults_partial v a f hx; rw [he] at h; cases h
+    · obtain ⟨e, he⟩ := C09_faults_partial .fixed a f hx; rw [he] at h; cases h
   | inl r =>
     left
     refine ⟨r, rfl, ?_⟩
-    rcases glue_success_exact v a _ resp h with h1 | ⟨_, _, h1⟩ <;>
-      (cases a <;> simp only [lib, headOf] at h1 <;> (try split at h1) <;>
-        simp_all [respOf] <;> (cases resp; simp_all))
+    obtain ⟨hd, hl, h1, h2, h3, h4⟩ := glue_success_exact a _ resp h
+    have hl' : hd = headFor a (headOf r) ∧ resp.body = r.body := by
+      cases a <;> simp only [lib] at hl <;> (try split at hl) <;> simp_all
+    obtain ⟨rfl, hb⟩ := hl'
+    have hf : headFor a (headOf r) = headOf r := by
+      cases a
+      · cases hc : r.contentType <;> simp [headFor, headOf, hc]
+      · cases hc : r.contentType <;> simp [headFor, headOf, hc]
+      · have := h4 rfl
+        cases hc : r.contentType with
+        | none => simp [headFor, headOf, hc]
+        | some v =>
+          by_cases hu : Json.validUtf8 v = true
+          · simp [headFor, headOf, hc, hu]
+          · simp [headFor, headOf, hc, hu] at this
+      · have := h3 rfl
+        cases hc : r.contentType with
+        | none => simp [headFor, headOf, hc]
+        | some v =>
+          by_cases hu : visibleAscii v = true
+          · simp [headFor, headOf, hc, hu]
+          · simp [headFor, headOf, hc, hu] at this
+    rw [hf] at h1 h2
+    cases resp
+    simp_all [respOf, headOf]
 
 /-! ### Request direction -/
 
@@ -247,9 +373,9 @@ theorem C09_request_of_build (a : Id) (c : Req.Cfg) :
 /-! ### Non-vacuity -/
 example : WellFormed ⟨503, some (Form.lit "Application/JSON; charset=utf-8"), [0, 0xFF, 0x0A]⟩ := by decide
 example : adapter .fixed .curl (.inl ⟨302, none, []⟩) = .ok ⟨302, none, []⟩ := by decide
-example : adapter .pinned .ureq (.inr (.truncatedBody ⟨200, none⟩)) = .error .io := by decide
-example : adapter .fixed .ureq (.inr (.truncatedBody ⟨400, none⟩)) = .error .io := by decide
-example : adapter .fixed .curl (.inr (.truncatedBody ⟨200, none⟩)) = .error .lib := by decide
+example : adapter .pinned .ureq (.inr (.truncatedBody { status := 200, contentType := none })) = .error .io := by decide
+example : adapter .fixed .ureq (.inr (.truncatedBody { status := 400, contentType := none })) = .error .io := by decide
+example : adapter .fixed .curl (.inr (.truncatedBody { status := 200, contentType := none })) = .error .lib := by decide
 example : adapter .fixed .reqwestBlocking (.inr f6Witness) = .error .io := by decide
 example : adapter .pinned .curl (.inr f6Witness) = .error .lib := by decide
 example : sent .curl ⟨.post, [], [(Form.lit "authorization", [0x80])], []⟩ = .error .other := by decide
@@ -258,8 +384,15 @@ end C09
 
 #print axioms C09.glue_ok
 #print axioms C09.glue_success_exact
+#print axioms C09.glue_pinned_hidden_dropped
 #print axioms C09.glue_error
+#print axioms C09.glue_fixed_unreadable
 #print axioms C09.C09_transparent
+#print axioms C09.C09_transparent_reqwest
+#print axioms C09.C09_unreadable_is_error
+#print axioms C09.C09_pinned_ureq_hidden_ct_dropped
+#print axioms C09.C09_ureq_not_transparent
+#print axioms C09.C09_curl_not_transparent
 #print axioms C09.C09_transparent_partial
 #print axioms C09.C09_pinned_ureq_ge400
 #print axioms C09.C09_pinned_not_transparent
